@@ -1,5 +1,5 @@
 import Proofs.C12
-import Proofs.Gen
+import Proofs.GenTables
 #print axioms Xsel.C12.firstDoc_cases
 #print axioms Xsel.C12.xmlNameStr_eq
 #print axioms Xsel.C12.name_fns_spec
